@@ -290,7 +290,8 @@ func c04Run(c *Ctx) {
 		pool := apiHostileTokens(ar, added)
 		for i, n := 0, ar.Range(0, 4); i < n; i++ {
 			j := ar.Intn(len(args) + 1)
-			args = append(args[:j], append([]string{pool[ar.Intn(len(pool))]}, args[j:]...)...)
+			ins := strings.Split(pool[ar.Intn(len(pool))], "\x01")
+			args = append(args[:j], append(ins, args[j:]...)...)
 		}
 		c.Note("added", describeAPI(added))
 	}
